@@ -324,6 +324,9 @@ func (ctx *_builtinJSON_stringifyContext) str(key Value, holder *Object) bool {
 			switch pValue := o1.pValue.(type) {
 			case valueInt, valueFloat:
 				value = o.ToNumber()
+			case *Symbol:
+				// a Symbol wrapper has none of [[NumberData]], [[StringData]], [[BooleanData]], [[BigIntData]]:
+				// it is serialised as an ordinary object
 			default:
 				value = pValue
 			}
